@@ -622,10 +622,10 @@ def layer_import(ctx, n):
 
 def run(ctx):
     monitors.install(ctx, tokalg=False)
-    layer_import(ctx, 20 if ctx.quick else 200)
-    layer_model(ctx, 120 if ctx.quick else 2500)
-    layer_python(ctx, 150 if ctx.quick else 3000)
-    layer_paths(ctx, 250 if ctx.quick else 5000)
+    layer_import(ctx, 40 if ctx.quick else 200)
+    layer_model(ctx, 300 if ctx.quick else 2500)
+    layer_python(ctx, 350 if ctx.quick else 3000)
+    layer_paths(ctx, 600 if ctx.quick else 5000)
 
 
 def replay(data):
